@@ -182,51 +182,82 @@ def check_unselected(acc, E, coll, c, mask, nd, kw, alpha, routes):
 
 
 def check_loop(acc, E, coll, c, mask, nd, kw, use_c, max_it, thr):
-    """(vi) dba_loop performs at most max_it update steps, does not modify c, stays in range; identical series are a fixed point."""
+    """(vi) dba_loop performs at most max_it update steps, does not modify c, stays in range; identical series are a fixed point;
+    it ITERATES the step: the input of step i is the output of step i-1, the result is the output of the last step, and with
+    keep_averages the kept list is exactly the sequence of step outputs."""
     np, bc = E.np, E.bc
-    s = [np.array(x, dtype=float) for x in coll]
-    c0 = np.array(c, dtype=float)
-    cbefore = c0.copy()
-    calls = [0]
-    if use_c:
-        target, name = E.dtw.dtw_cc, ('dba' if nd == 1 else 'dba_ndim')
-        orig = getattr(bc.dtw_cc, name)
-
-        def wrap(*a, **k):
-            calls[0] += 1
-            return orig(*a, **k)
-        setattr(bc.dtw_cc, name, wrap)
-    else:
-        orig = bc.dba
-
-        def wrap(*a, **k):
-            calls[0] += 1
-            return orig(*a, **k)
-        bc.dba = wrap
-    try:
-        res = core.call(bc.dba_loop, s, c=c0, max_it=max_it, thr=thr, mask=np.array(mask, dtype=bool), use_c=use_c, **kw)
-    finally:
+    for keep in ((False, True) if max_it >= 2 else (False,)):
+        s = [np.array(x, dtype=float) for x in coll]
+        c0 = np.array(c, dtype=float)
+        cbefore = c0.copy()
+        calls = [0]
+        ins, outs = [], []
         if use_c:
-            setattr(bc.dtw_cc, name, orig)
+            target, name = E.dtw.dtw_cc, ('dba' if nd == 1 else 'dba_ndim')
+            orig = getattr(bc.dtw_cc, name)
+
+            def wrap(*a, **k):
+                calls[0] += 1
+                ins.append(np.array(a[1], dtype=float).copy())
+                r = orig(*a, **k)
+                outs.append(np.array(a[1], dtype=float).copy())      # the C step updates its second argument in place
+                return r
+            setattr(bc.dtw_cc, name, wrap)
         else:
-            bc.dba = orig
-    acc.trans()
-    acc.valid()
-    case = {'series': coll, 'c': c, 'mask': mask, 'ndim': nd, 'settings': kw, 'use_c': use_c, 'max_it': max_it, 'thr': thr}
-    why = None
-    if isinstance(res, core.Exc):
-        why = repr(res)
-    elif calls[0] > max_it:
-        why = '%d update steps, max_it=%d' % (calls[0], max_it)
-    elif not np.array_equal(c0, cbefore):
-        why = 'the initial average passed by the caller was modified'
-    else:
-        sel = [x for x, m in zip(coll, mask) if m]
-        if len(set(sel)) == 1 and tuple(c) == sel[0]:
-            if not np.allclose(np.asarray(res), np.array(c, dtype=float), rtol=0, atol=1e-12):
-                why = 'identical series are not a fixed point: %r' % (np.asarray(res).tolist(),)
-    if why:
-        acc.violation('loop', 'dba_loop', 'c' if use_c else 'py', {'ndim': nd, 'what': 'loop', 'max_it': max_it}, case, '<= max_it steps, c untouched', why)
+            orig = bc.dba
+
+            def wrap(*a, **k):
+                calls[0] += 1
+                ins.append(np.array(a[1], dtype=float).copy())
+                r = orig(*a, **k)
+                outs.append(np.array(r, dtype=float).copy())
+                return r
+            bc.dba = wrap
+        try:
+            res = core.call(bc.dba_loop, s, c=c0, max_it=max_it, thr=thr, mask=np.array(mask, dtype=bool), use_c=use_c, keep_averages=keep, **kw)
+        finally:
+            if use_c:
+                setattr(bc.dtw_cc, name, orig)
+            else:
+                bc.dba = orig
+        acc.trans()
+        acc.valid()
+        case = {'series': coll, 'c': c, 'mask': mask, 'ndim': nd, 'settings': kw, 'use_c': use_c, 'max_it': max_it, 'thr': thr, 'keep_averages': keep}
+        why = None
+        kept = None
+        if not isinstance(res, core.Exc) and keep:
+            try:
+                res, kept = res
+            except (TypeError, ValueError):
+                why = 'keep_averages=True did not return (average, list of averages): %r' % (res,)
+
+        def same(x, y):
+            x, y = np.asarray(x, dtype=float), np.asarray(y, dtype=float)
+            return x.shape == y.shape and bool(np.all(x == y))
+        if why is not None:
+            pass
+        elif isinstance(res, core.Exc):
+            why = repr(res)
+        elif calls[0] > max_it:
+            why = '%d update steps, max_it=%d' % (calls[0], max_it)
+        elif not np.array_equal(c0, cbefore):
+            why = 'the initial average passed by the caller was modified'
+        elif calls[0] and not same(ins[0], cbefore):
+            why = 'the first step did not start from the given average: %r' % (ins[0].tolist(),)
+        elif any(not same(ins[i], outs[i - 1]) for i in range(1, calls[0])):
+            why = 'step %d did not start from the output of the previous step' % ([i for i in range(1, calls[0]) if not same(ins[i], outs[i - 1])][0],)
+        elif calls[0] and not same(res, outs[-1]):
+            why = 'the returned average %r is not the output of the last step %r' % (np.asarray(res).tolist(), outs[-1].tolist())
+        elif kept is not None and (len(kept) != calls[0] or any(not same(kept[i], outs[i]) for i in range(calls[0]))):
+            why = 'the kept averages %r are not the outputs of the successive steps %r' % ([np.asarray(k).tolist() for k in kept], [o.tolist() for o in outs])
+        else:
+            sel = [x for x, m in zip(coll, mask) if m]
+            if len(set(sel)) == 1 and tuple(c) == sel[0]:
+                if not np.allclose(np.asarray(res), np.array(c, dtype=float), rtol=0, atol=1e-12):
+                    why = 'identical series are not a fixed point: %r' % (np.asarray(res).tolist(),)
+        if why:
+            acc.violation('loop', 'dba_loop', 'c' if use_c else 'py', {'ndim': nd, 'what': 'loop', 'max_it': max_it, 'keep_averages': keep}, case,
+                          '<= max_it steps, c untouched, steps chained, kept averages = step outputs', why)
 
 
 def masks(n):
@@ -282,7 +313,7 @@ def worker(acc, shard, nshards, tier, seed):
             check_unselected(acc, E, coll, c, mask, nd, kw, A if nd == 1 else univ.alphabet(univ.BASE2, seed), routes)
         if k % 11 == 0:
             for use_c in (False, True):
-                for max_it, thr in ((1, None), (2, 0), (3, 0.001)):
+                for max_it, thr in ((1, None), (2, 0), (3, 0.001), (3, None)):
                     check_loop(acc, E, coll, c, mask, nd, kw, use_c, max_it, thr)
         acc.case(sub, nontrivial=bool(nt))
         if acc.states % 5003 == 1:
